@@ -9,9 +9,11 @@ PROPS["C07"] = dict(
                "compares everything gobgp wrote (type, NOTIFICATION code/subcode/data, virtual instant), connection closes, the WatchEvent peer-state stream "
                "with its instants, ListPeer (session/admin state, negotiated timers) and ListPath(GLOBAL/ADJ_IN) with the set of outcomes of c07Model, an "
                "executable non-deterministic model of the RFC 4271 section 8 state machine. PRNG walks of 4-12 events over random peer kinds and hold-time "
-               "pairs, 20 single-connection scenarios on an active peer (gobgp's own connection, handed a pipe through the dial hook) and 78 connection-collision "
+               "pairs, 20 single-connection scenarios on an active peer (gobgp's own connection, handed a pipe through the dial hook) and 142 connection-collision "
                "scenarios (all orders of {inbound accepted, outbound dialled, OPEN on inbound, OPEN on outbound} x both BGP-identifier orders, the variant without "
-               "OPEN on the inbound connection, and both OPENs written at one instant, repeated 16 times) complete it. Fault enumeration is the right "
+               "OPEN on the inbound connection, both OPENs written at one instant, repeated 16 times, and the steered variant in which gobgp's FSM goroutine is held at the yield point "
+               "\"opensent\" (shared gate simOpenSentGate) until both OPENs are queued, so that gobgp's own collision code runs in either select branch, "
+               "repeated 16 times) complete it. Fault enumeration is the right "
                "level: the state machine is small, its faults are a finite alphabet, and virtual time makes timer instants exact.",
     level_note="The model is written from RFC 4271 (+ RFC 6608 FSM-error subcodes, RFC 4486/8203 Cease subcodes, RFC 6286 identifier rule); from gobgp it takes "
                "only the documented parameters the property leaves open (no Connect state, idle-hold 0 s / 5 s / 30 s after a reset, OpenSent hold 240 s, "
@@ -28,7 +30,8 @@ PROPS["C07"] = dict(
                     "(Active, Idle, OpenSent, OpenConfirm, Established) on a passive iBGP peer with hold times 30 s (gobgp) / 9 s (speaker), minus the "
                     "sequences subsumed by a shorter one (counter sequences_subsumed_by_shorter); all 20 single-event scenarios on gobgp's outbound "
                     "connection; all 6 orders (+ the order without OPEN on the inbound connection) x 2 identifier orders of the four collision events. "
-                    "Sampled: walks (quick 4,000, thorough 300,000); goroutine schedules of the simultaneous-OPEN collision scenarios (2 x 2 x 16 runs).",
+                    "Sampled: walks (quick 4,000, thorough 300,000); goroutine schedules of the simultaneous-OPEN collision scenarios (2 x 2 x 16 runs) and the select branch "
+                    "taken in the steered collision scenarios (2 x 2 x 16 runs, both branches ready).",
     assumptions=["a silent close is admissible where the RFCs say SHOULD or are silent: a refused / second inbound connection (optional Cease), a NOTIFICATION "
                  "received in OpenSent (FSM error or silent close), a valid second OPEN in OpenConfirm or Established, ShutdownPeer/ResetPeer while no "
                  "session is established (no-op)",
@@ -37,7 +40,7 @@ PROPS["C07"] = dict(
                  "prefix-limit overrun leaves the peer in admin state PFX_CT (gobgp's documented behaviour) until EnablePeer",
                  "UPDATE / ROUTE-REFRESH messages written by gobgp are not compared (C01 does that)",
                  "the global table is configured with two families (ipv4/ipv6 unicast) to keep a bubble cheap"],
-    must_count=["steps", "rib_listings", "transitions_observed", "cases_walk", "cases_active_peer", "collision_arose", "collision_avoided", "collision_inbound_silent",
+    must_count=["steps", "rib_listings", "transitions_observed", "cases_walk", "cases_active_peer", "collision_arose", "collision_avoided", "collision_inbound_silent", "collision_steered_gate_held",
                 "cases_exhaustive_active_len3", "cases_exhaustive_idle_len3", "cases_exhaustive_opensent_len3", "cases_exhaustive_openconfirm_len3",
                 "cases_exhaustive_established_len3",
                 "edge_idle->active", "edge_active->opensent", "edge_opensent->openconfirm", "edge_openconfirm->established", "edge_established->idle",
